@@ -201,4 +201,16 @@ PROPS = {
         "trusted": ["modelled, not verified: BytesMut as a byte list; the typed Rust message structs are represented generically as "
                     "(kind, wire fields in order, value) — the mapping of struct fields to wire positions is what the translator reads from the source"],
     },
+    "C14": {
+        "props_module": "Aldrin.Props.C14",
+        "level": "proof",
+        "run": generic_run("frame", {"pk", "tp"}, {"C14"}, {"quick": (2000, 4), "thorough": (20000, 14)}, canon=None, corpus=None,
+                           rule="packetizer: 1-8 serialised messages (5 bytes .. 200 KB) fed in chunks under 7 chunking policies (single bytes, "
+                                "random, aligned / just past / just short of frame boundaries, up to 70 KB) through extend_from_slice, "
+                                "spare_capacity_mut+bytes_written or a mix, with 4 drain patterns; transport: TokioTransport over a scripted "
+                                "AsyncRead+AsyncWrite object (short reads/writes, Pending, errors, EOF, zero-length writes) under random "
+                                "send/flush/receive sequences; distinct = distinct request lines"),
+        "trusted": ["modelled, not verified: BytesMut as a byte list plus an abstract capacity (reserve(n) guarantees capacity >= len + n; "
+                    "split_to(n) reduces it by n); the I/O object is a script of results; wakers are not modelled"],
+    },
 }
